@@ -1289,3 +1289,27 @@ func encWanted(codec string) bool { return strHasPrefix(codec, "avc") || strHasP
 //@   exit 4 requires indexWithinCycle: idx == ss.Rsq && ret0 == ss.Code && idx == int(segMeta.newNr) - firstNr
 //@   exit 4 requires cycleInReferenceTimescale: nrWraps == int(segMeta.newTime) / (ss.Cycle * int(segMeta.timescale)) && wrapStartS == nrWraps * ss.Cycle
 //@   exit 4 requires straddlerNotCounted: firstNr == cond(nrWraps > 0, lastNr + 1, specStartNr(cfg)) + cond(segTime < wrapStartS * int(segMeta.timescale), 1, 0)
+
+// ---------------------------------------------------------------------------
+// C02: the SegmentTemplate attributes written from the timeline entries
+
+// adjustAdaptationSetForTimelineNr: the $Number$ timeline carries exactly the generated runs, their
+// timescale, and a startNumber equal to the first listed segment's SERVED number (entries count
+// from 0 at availabilityStartTime, the server from the configured start number); it is written
+// whenever a segment is listed, also when that number is 0.
+//@ func adjustAdaptationSetForTimelineNr
+//@   requires cfg != nil && as != nil && as.SegmentTemplate != nil && se.startNr >= -1 && se.startNr <= 3000000000 && wfCfg(cfg)
+//@   ensures  result == nil && as.SegmentTemplate.SegmentTimeline != nil && as.SegmentTemplate.SegmentTimeline.S == se.entries
+//@   ensures  as.SegmentTemplate.Timescale != nil && *as.SegmentTemplate.Timescale == se.mediaTimescale && as.SegmentTemplate.Duration == nil
+//@   ensures  startNumber: se.startNr >= 0 ==> as.SegmentTemplate.StartNumber != nil && int(*as.SegmentTemplate.StartNumber) == se.startNr + specStartNr(cfg)
+//@   ensures  noNumber: se.startNr < 0 ==> as.SegmentTemplate.StartNumber == nil
+//@   assigns  as.SegmentTemplate.MultipleSegmentBaseType, as.SegmentTemplate.Media, as.SegmentTemplate.SegmentTimeline.S
+//@   allocates
+
+// adjustAdaptationSetForTimelineTime: the $Time$ timeline carries exactly the generated runs.
+//@ func adjustAdaptationSetForTimelineTime
+//@   requires as != nil && as.SegmentTemplate != nil
+//@   ensures  result == nil && as.SegmentTemplate.SegmentTimeline != nil && as.SegmentTemplate.SegmentTimeline.S == se.entries
+//@   ensures  as.SegmentTemplate.Timescale != nil && *as.SegmentTemplate.Timescale == se.mediaTimescale && as.SegmentTemplate.Duration == nil && as.SegmentTemplate.StartNumber == nil
+//@   assigns  as.SegmentTemplate.MultipleSegmentBaseType, as.SegmentTemplate.Media, as.SegmentTemplate.SegmentTimeline.S
+//@   allocates
